@@ -425,7 +425,8 @@ Definition note_event (e : hev) (s : stream) : stream :=
   let fresh := sst_eqb (cs s) SWaitReqH && negb (is_some (req s)) in
   let bad_env := (fresh && negb (is_first e)) || (negb fresh && is_first e)
                  || (negb (is_req_side e) && negb (upstream s))
-                 || (is_req_side e && reqerr_h s) in
+                 || (is_req_side e && reqerr_h s)
+                 || match e with EReqData [] | ERespData [] => true | _ => false end in
   let s1 := if bad_env then upd_venv true s else s in
   let s2 := if negb (is_req_side e) && aborted s then upd_vgap true s1 else s1 in
   match e with
